@@ -764,13 +764,37 @@ func builderFlow(c *Ctx, g *load.G) {
 		for _, h := range withHelpers(g.Pkg("builder"), fd, "writeExpr", "writeExprCode") {
 			scope.List = append(scope.List, h.Body)
 		}
+		// the block text may be kept in a local first (`block := strings.TrimSpace(code.Val); body := block[1:…]`)
+		localDef := map[string]string{}
+		localCnt := map[string]int{}
+		ast.Inspect(scope, func(nd ast.Node) bool {
+			if as, ok := nd.(*ast.AssignStmt); ok && len(as.Lhs) == len(as.Rhs) {
+				for k, l := range as.Lhs {
+					if id, ok := l.(*ast.Ident); ok {
+						localCnt[id.Name]++
+						localDef[id.Name] = nospace(as.Rhs[k])
+					}
+				}
+			}
+			return true
+		})
 		ast.Inspect(scope, func(nd ast.Node) bool {
 			se, ok := nd.(*ast.SliceExpr)
-			if !ok || !strings.Contains(nospace(se.X), ".Val") {
+			if !ok {
+				return true
+			}
+			alias := ""
+			if id, isId := se.X.(*ast.Ident); isId && localCnt[id.Name] == 1 && strings.Contains(localDef[id.Name], ".Val") && !strings.Contains(localDef[id.Name], "[") {
+				alias = id.Name
+			}
+			if alias == "" && !strings.Contains(nospace(se.X), ".Val") {
 				return true
 			}
 			n++
 			base := nospace(se.X)
+			if alias != "" {
+				base = localDef[alias]
+			}
 			if strings.HasPrefix(base, "strings.TrimSpace(") {
 				base = strings.TrimSuffix(strings.TrimPrefix(base, "strings.TrimSpace("), ")")
 			}
@@ -781,7 +805,7 @@ func builderFlow(c *Ctx, g *load.G) {
 			if se.High != nil {
 				hi = nospace(se.High)
 			}
-			if lo != "1" || hi != "len("+base+")-1" {
+			if lo != "1" || (hi != "len("+base+")-1" && !(alias != "" && hi == "len("+alias+")-1")) {
 				bad = append(bad, where(se)+": the block text is "+nospace(se)+", expected "+base+"[1:len("+base+")-1] (the text between the braces): a brace that stays, or a byte of code that goes, makes the emitted file not compile")
 			}
 			return true
